@@ -484,6 +484,13 @@ example : C10.NotKeptLater (browserCfg ["_x", "_y"] 10000 none) 0 ([] ++ (0, .st
   simp only [Option.bind_some, h2, Option.map_some, Option.some.injEq] at hw
   omega
 
+/-- `SameType`, `Active`, `Untouched` and the two arithmetic hypotheses of `C10_refreshed_chain` hold at the witness history -/
+example : C10.SameType "a" "_x" C10.lateWitness ∧ C10.Active C10.lateWitness ∧
+    C10.Untouched "a" [(2531349, Op.ptr "b" "_y" 1125 2531349), (3375099, .fire false), (3385099, .fire false)] ∧
+    (2522350 : Int) + (10000 : Nat) ≤ 2522350 + 750 * (1125 : Nat) ∧ (0 : Int) + (50 : Nat) + 14000 + (10000 : Nat) ≤ 2522350 + 750 * (1125 : Nat) := by
+  unfold C10.SameType C10.Active C10.Untouched C10.lateWitness
+  decide
+
 /-! ### "no service is reported Removed by expiry without refresh attempts having been made" — per instance
 
 The browser reports `Removed` by expiry in the block in which `async_update_records` finds the cached pointer record expired
